@@ -48,7 +48,13 @@ func (m *C18) AfterCommit(w *chain.World, blk *chain.BlockRecord) {
 	keep := []string{}
 	for _, l := range strings.Split(stack, "\n") {
 		if strings.Contains(l, "github.com/elys-network/elys/") && !strings.Contains(l, "\t") {
-			keep = append(keep, strings.TrimSpace(l))
+			f := strings.TrimSpace(l)
+			if i := strings.Index(f, "("); i > 0 && !strings.HasPrefix(f[i:], "(*") {
+				f = f[:i]
+			} else if j := strings.LastIndex(f, "("); j > 0 {
+				f = f[:j]
+			}
+			keep = append(keep, strings.TrimPrefix(f, "github.com/elys-network/elys/"))
 		}
 	}
 	if len(keep) > 8 {
